@@ -294,9 +294,11 @@ impl<F: Write + Seek> MiniAllocator<F> {
             }
         }
         // Add a new mini sector to the end of the mini stream and return it.
+        // Grow the mini stream first: if that fails, the MiniFAT must not be
+        // left describing a mini sector that the mini stream doesn't hold.
         let new_mini_sector = self.minifat.len() as u32;
-        self.set_minifat(new_mini_sector, value)?;
         self.append_mini_sector()?;
+        self.set_minifat(new_mini_sector, value)?;
         Ok(new_mini_sector)
     }
 
